@@ -2,7 +2,7 @@
    Pinned statements, `exact` proofs, Print Assumptions, and Examples showing that hypotheses are satisfiable. *)
 From PV Require Import Base.MachineInt Model.Znx Model.Limbs Model.LimbsBig Model.Flat Model.Ring Model.DftAbs
   Model.C05Cnv Model.C05Spec Model.C05Core.
-From PV Require Import Proofs.C07Dft Proofs.C07Ring Proofs.C05Cnv Proofs.C05Core.
+From PV Require Import Proofs.C07Dft Proofs.C07Ring Proofs.C05Cnv Proofs.C05Core Proofs.C05Norm.
 Open Scope Z_scope.
 
 (* ====================================================================================================== *)
@@ -102,21 +102,15 @@ Theorem C05_pmul_pconst : forall x c, (1 <= length x)%nat -> pmul x (pconst (len
 Proof. exact pmul_pconst. Qed.
 Print Assumptions C05_pmul_pconst.
 
-(* placement in a destination with several columns: the addressed form (NTT120, by_const) is the documented one;
-   the FFT64 flat form agrees with it for one column and is refuted for two (known finding fft64.cnv_apply_dft.res_col_ignored) *)
-Theorem C05_cnv_store_addressed_is_spec : forall n rcols rsz rcol ms f r0,
-  cnv_store false n rcols rsz rcol ms f r0 =
+(* placement in a destination with several columns (both families since the repair 2ac1856 of the FFT64 kernels):
+   column rcol receives the computed limbs, is zero from min_size on, and no other word of the destination changes *)
+Theorem C05_cnv_store_is_spec : forall n rcols rsz rcol ms f r0,
+  cnv_store n rcols rsz rcol ms f r0 =
   cnv_store_spec n rcols rsz rcol (fun j => if Nat.ltb j ms then f j else pzero n) r0.
-Proof. exact cnv_store_addressed_is_spec. Qed.
-Print Assumptions C05_cnv_store_addressed_is_spec.
-Theorem C05_cnv_store_flat_one_column : forall n rsz ms f r0, (ms <= rsz)%nat ->
-  cnv_store true n 1 rsz 0 ms f r0 = cnv_store_spec n 1 rsz 0 (fun j => if Nat.ltb j ms then f j else pzero n) r0.
-Proof. exact cnv_store_flat_one_column. Qed.
-Print Assumptions C05_cnv_store_flat_one_column.
-Theorem C05_cnv_store_flat_refuted : exists n rcols rsz rcol ms f r0,
-  cnv_store true n rcols rsz rcol ms f r0 <> cnv_store_spec n rcols rsz rcol (fun j => if Nat.ltb j ms then f j else pzero n) r0.
-Proof. exact cnv_store_flat_refuted. Qed.
-Print Assumptions C05_cnv_store_flat_refuted.
+Proof. exact cnv_store_is_spec. Qed.
+Print Assumptions C05_cnv_store_is_spec.
+Example C05_cnv_store_ex : cnv_store 1 2 2 0 2 (fun j => [Z.of_nat j + 5]) [1; 2; 3; 4] = [5; 2; 6; 4].
+Proof. reflexivity. Qed.
 
 (* the (cnv_offset_hi, cnv_offset_lo) split, as the Rust computes it, in both branches *)
 Theorem C05_cnv_offset_split_correct : forall b cnv, 1 <= b -> 0 <= cnv ->
@@ -149,7 +143,7 @@ Theorem C05_tensor_cell_value :
   forall (fft : bool) (n rsz dsz hi cols asz bsz : nat) (P rb ab lo : Z) (nrm : plimbs -> limbs)
          (eps kap : plimbs -> list Z) (dom : plimbs -> Prop) (A B : list plimbs) (sigma : nat * nat -> list Z),
   (forall D, shaped n rsz (nrm D)) ->
-  (forall D u c, Z.abs (nth c (lim (nrm D) u) 0) <= 2 ^ 61) ->
+  (forall D, wfl n D -> length D = dsz -> dom D -> forall u c, Z.abs (nth c (lim (nrm D) u) 0) <= 2 ^ 61) ->
   (forall D, wfl n D -> length D = dsz -> dom D ->
      length (eps D) = n /\ length (kap D) = n /\
      Vr n P rb (nrm D) = padd (padd (Vd n P ab lo D) (eps D)) (pscale (2 ^ P) (kap D)) /\
@@ -173,7 +167,7 @@ Theorem C05_tensor_phase :
   forall (fft : bool) (n rsz dsz hi cols asz bsz : nat) (P rb ab lo : Z) (nrm : plimbs -> limbs)
          (eps kap : plimbs -> list Z) (dom : plimbs -> Prop) (A B : list plimbs) (sigma : nat * nat -> list Z),
   (forall D, shaped n rsz (nrm D)) ->
-  (forall D u c, Z.abs (nth c (lim (nrm D) u) 0) <= 2 ^ 61) ->
+  (forall D, wfl n D -> length D = dsz -> dom D -> forall u c, Z.abs (nth c (lim (nrm D) u) 0) <= 2 ^ 61) ->
   (forall D, wfl n D -> length D = dsz -> dom D ->
      length (eps D) = n /\ length (kap D) = n /\
      Vr n P rb (nrm D) = padd (padd (Vd n P ab lo D) (eps D)) (pscale (2 ^ P) (kap D)) /\
@@ -195,7 +189,6 @@ Print Assumptions C05_tensor_phase.
 Theorem C05_tensor_error_bound :
   forall (fft : bool) (n rsz dsz hi cols asz bsz : nat) (P rb ab lo : Z) (nrm : plimbs -> limbs)
          (eps kap : plimbs -> list Z) (dom : plimbs -> Prop) (A B : list plimbs) (sigma : nat * nat -> list Z),
-  (forall D u c, Z.abs (nth c (lim (nrm D) u) 0) <= 2 ^ 61) ->
   (forall D, wfl n D -> length D = dsz -> dom D ->
      length (eps D) = n /\ length (kap D) = n /\
      Vr n P rb (nrm D) = padd (padd (Vd n P ab lo D) (eps D)) (pscale (2 ^ P) (kap D)) /\
@@ -223,7 +216,7 @@ Proof.
   intros nrm zero res0 HL Hr.
   apply (C05_tensor_phase true 2 2 2 0 2 1 1 40 8 8 0 nrm zero zero (small_dom 2 2) exA exB exsig).
   - intros D. apply reshape_shape.
-  - intros D u c. apply reshape_no_overflow.
+  - intros D _ _ _ u c. apply reshape_no_overflow.
   - intros D w L d. apply (reshape_value_ok 2 2 40 8 D w L d).
   - intros [|[|i]] Hi; try lia; (split; [intros [|j] Hj; cbn in *; [reflexivity|lia]|reflexivity]).
   - intros [|[|i]] Hi; try lia; (split; [intros [|j] Hj; cbn in *; [reflexivity|lia]|reflexivity]).
@@ -375,6 +368,57 @@ Theorem C05_error_phase_bound : forall (X : Type) (n : nat) (E sig : X -> list Z
   Z.abs (nth c (plsum n (map (fun x => pmul (E x) (sig x)) l)) 0) <= lsum (map (fun x => w x * norm1 (sig x)) l).
 Proof. exact @error_phase_bound. Qed.
 Print Assumptions C05_error_phase_bound.
+
+(* ---- the normalisation hypotheses discharged from C08 (FFT64 family, equal radices b <= 62, accumulators within 2^62) ---- *)
+Theorem C05_normalize_value_ok_fft64 : forall (n rsz dsz : nat) (P b lo : Z),
+  1 <= b <= 62 -> zn rsz * b + zn dsz * b + Z.abs lo <= P ->
+  forall D, wfl n D -> length D = dsz -> dom62 D ->
+  length (eps64 n rsz P b lo D) = n /\ length (kap64 n rsz P b lo D) = n /\
+  pval n P b (big_nrm true n rsz b b lo D) =
+    padd (padd (pval n (P + lo) b D) (eps64 n rsz P b lo D)) (pscale (2 ^ P) (kap64 n rsz P b lo D)) /\
+  forall c, Z.abs (nth c (eps64 n rsz P b lo D) 0) <= 2 ^ (P - zn rsz * b).
+Proof. exact normalize_value_ok_fft64. Qed.
+Print Assumptions C05_normalize_value_ok_fft64.
+
+Theorem C05_nrm_no_overflow_fft64 : forall (n rsz dsz : nat) (P b lo : Z),
+  1 <= b <= 62 -> zn rsz * b + zn dsz * b + Z.abs lo <= P ->
+  forall D, wfl n D -> length D = dsz -> dom62 D -> forall u c, Z.abs (nth c (lim (big_nrm true n rsz b b lo D) u) 0) <= 2 ^ 61.
+Proof. exact nrm64_no_overflow. Qed.
+Print Assumptions C05_nrm_no_overflow_fft64.
+
+(* C05_tensor_phase and C05_tensor_error_bound with no hypothesis on the normaliser left: the model's own big_nrm *)
+Theorem C05_tensor_phase_fft64 :
+  forall (n rsz dsz hi cols asz bsz : nat) (P b lo : Z) (A B : list plimbs) (sigma : nat * nat -> list Z),
+  1 <= b <= 62 -> zn rsz * b + zn dsz * b + Z.abs lo <= P ->
+  (forall i, (i < cols)%nat -> wfl n (colsel A i) /\ length (colsel A i) = asz) ->
+  (forall i, (i < cols)%nat -> wfl n (colsel B i) /\ length (colsel B i) = bsz) ->
+  (1 <= asz)%nat -> (1 <= bsz)%nat ->
+  (forall i, (i < cols)%nat -> dom62 (Cn true n dsz hi A B i i)) ->
+  (forall i j, (i < cols)%nat -> (j < cols)%nat -> i <> j -> dom62 (Pw true n dsz hi A B i j)) ->
+  (forall ij, length (sigma ij) = n) ->
+  forall res0 : list (list (list Z)), length res0 = length (tpairs cols) -> (forall r, In r res0 -> length r = rsz) ->
+  phase n P b (tensor_gen (cell_apply true n (big_nrm true n rsz b b lo) dsz hi A B) cols res0) (map sigma (tpairs cols)) =
+  padd (padd (plsum n (map (fun ij => pmul (Gm true n dsz hi P b lo A B ij) (sigma ij)) (tpairs cols)))
+             (plsum n (map (fun ij => pmul (Em true n dsz hi (eps64 n rsz P b lo) A B ij) (sigma ij)) (tpairs cols))))
+       (pscale (2 ^ P) (plsum n (map (fun ij => pmul (Km true n dsz hi (kap64 n rsz P b lo) A B ij) (sigma ij)) (tpairs cols))))
+  /\ forall ij c, (fst ij < cols)%nat -> (snd ij < cols)%nat ->
+     Z.abs (nth c (Em true n dsz hi (eps64 n rsz P b lo) A B ij) 0) <= (if Nat.eqb (fst ij) (snd ij) then 1 else 3) * 2 ^ (P - zn rsz * b).
+Proof. exact tensor_phase_fft64. Qed.
+Print Assumptions C05_tensor_phase_fft64.
+
+Theorem C05_mul_plain_phase_fft64 :
+  forall (n rsz dsz hi : nat) (P b lo : Z) (B : plimbs) (A : list plimbs) (key : list (list Z)),
+  1 <= b <= 62 -> zn rsz * b + zn dsz * b + Z.abs lo <= P ->
+  wfl n B -> (1 <= length B)%nat ->
+  (forall a, In a A -> wfl n a /\ (1 <= length a)%nat /\ dom62 (cnv_apply true n dsz hi a B)) -> (forall k, In k key -> length k = n) ->
+  let Cf := fun a => cnv_apply true n dsz hi a B in
+  phase n P b (map (fun a => big_nrm true n rsz b b lo (Cf a)) A) key =
+  padd (padd (plsum n (map (fun q => pmul (pval n (P + lo) b (Cf (fst q))) (snd q)) (combine A key)))
+             (plsum n (map (fun q => pmul (eps64 n rsz P b lo (Cf (fst q))) (snd q)) (combine A key))))
+       (pscale (2 ^ P) (plsum n (map (fun q => pmul (kap64 n rsz P b lo (Cf (fst q))) (snd q)) (combine A key))))
+  /\ forall a c, In a A -> Z.abs (nth c (eps64 n rsz P b lo (Cf a)) 0) <= 2 ^ (P - zn rsz * b).
+Proof. exact mul_plain_phase_fft64. Qed.
+Print Assumptions C05_mul_plain_phase_fft64.
 
 (* relinearisation, proved part: the phase of the tensor under (1, s, s (x) s) is the phase of its first rank+1 columns under (1, s)
    plus the phase of the s_i s_j columns under s (x) s; relinearisation keeps the former and key-switches the latter *)
